@@ -539,3 +539,95 @@ func repoPath(rel string) string {
 	}
 	return root + "/" + rel
 }
+
+// ---- exhaustive small scope (C02's "all small pattern/message pairs over a two-letter alphabet") ----
+
+func init() { components["matchenum"] = matchEnumComponent }
+
+// enumJSON returns every value with exactly size nodes over the alphabet
+// {a, b} (string constants and keys), arrays and objects of at most two
+// members; patterns additionally use the variables ?x, ?y (also as a sole
+// property name).
+func enumJSON(size int, pattern bool, memo map[int][]interface{}) []interface{} {
+	if v, have := memo[size]; have {
+		return v
+	}
+	var acc []interface{}
+	if size == 1 {
+		acc = append(acc, "a", "b")
+		if pattern {
+			acc = append(acc, "?x", "?y")
+		}
+		acc = append(acc, []interface{}{}, map[string]interface{}{})
+		memo[size] = acc
+		return acc
+	}
+	rest := size - 1
+	// one member
+	for _, c := range enumJSON(rest, pattern, memo) {
+		acc = append(acc, []interface{}{c})
+		acc = append(acc, map[string]interface{}{"a": c}, map[string]interface{}{"b": c})
+		if pattern {
+			acc = append(acc, map[string]interface{}{"?x": c})
+		}
+	}
+	// two members
+	for s1 := 1; s1 < rest; s1++ {
+		for _, c1 := range enumJSON(s1, pattern, memo) {
+			for _, c2 := range enumJSON(rest-s1, pattern, memo) {
+				acc = append(acc, []interface{}{c1, c2})
+				acc = append(acc, map[string]interface{}{"a": c1, "b": c2})
+			}
+		}
+	}
+	memo[size] = acc
+	return acc
+}
+
+func matchEnumComponent(g *G, n int, opts map[string]string) *Out {
+	g.mode = opts["mode"]
+	o := newOut("Corr.MatchCorr", "mcase")
+	pmax, fmax := 3, 4
+	if opts["deep"] == "1" {
+		pmax, fmax = 4, 4
+	}
+	pm, fm := map[int][]interface{}{}, map[int][]interface{}{}
+	var ps, fs []interface{}
+	for s := 1; s <= pmax; s++ {
+		ps = append(ps, enumJSON(s, true, pm)...)
+	}
+	for s := 1; s <= fmax; s++ {
+		fs = append(fs, enumJSON(s, false, fm)...)
+	}
+	total := len(ps) * len(fs)
+	stride := 1
+	if n > 0 && total > n {
+		stride = (total + n - 1) / n
+	}
+	o.Notes = append(o.Notes, fmt.Sprintf("small scope: %d patterns (<= %d nodes) x %d messages (<= %d nodes) = %d pairs; stride %d (1 = exhaustive)",
+		len(ps), pmax, len(fs), fmax, total, stride))
+	k := 0
+	for _, p := range ps {
+		for _, f := range fs {
+			k++
+			if (k-1)%stride != 0 {
+				continue
+			}
+			c := &matchCase{Kind: "enum", P: p, F: f, Bs: map[string]interface{}{}}
+			g.runMatchCase(c, 2)
+			term, ok := c.coq()
+			if !ok {
+				continue
+			}
+			o.count("class:" + c.Class)
+			if len(c.Results) > 1 {
+				o.count("several-results")
+			}
+			o.add(term, canon(p)+"|"+canon(f), hasVar(p) && len(c.Results) > 0, c)
+		}
+	}
+	if stride == 1 {
+		o.count("exhaustive")
+	}
+	return o
+}
